@@ -24,8 +24,17 @@ def species_literals(ctx):
     out = {}
     for f in ctx.prog.cls("Stage").methods.values():
         for c in walk_no_nested(f.node):
-            if is_call_to(c, "_create_placeholder_expr", "self") and len(c.args) >= 2 and isinstance(c.args[1], ast.Constant):
-                out.setdefault(c.args[1].value, []).append((f, c))
+            if is_call_to(c, "_create_placeholder_expr", "self") and len(c.args) >= 2:
+                # the species is a literal or a choice between literals (conditional expression)
+                leaves, work = [], [c.args[1]]
+                while work:
+                    e = work.pop()
+                    if isinstance(e, ast.IfExp):
+                        work += [e.body, e.orelse]
+                    elif isinstance(e, ast.Constant) and isinstance(e.value, str):
+                        leaves.append(e.value)
+                for v in leaves:
+                    out.setdefault(v, []).append((f, c))
     return out
 
 
@@ -130,7 +139,8 @@ def r05_2(ctx):
     ctx.check(ok, "fill_placeholders_integral_control is the left sum weighted with the interval lengths", detail="integral(grid='control') rule",
               expected="sum_k (t_{k+1}-t_k) * expr(node k), k=0..N-1, from the control-grid samples", found=found, fi=f, sample={"rule": found})
     g = prog.own_method("Stage", "sum")
-    rets = [(ast.unparse(r.value), [(ast.unparse(t), p) for t, p in ctx.scope(g).path_guards(r) if "include_last" in ast.unparse(t)]) for r in walk_no_nested(g.node) if isinstance(r, ast.Return)]
+    from ..norm import return_cases
+    rets = [(v, [(t, p) for t, p in gs if "include_last" in t]) for v, gs in return_cases(ctx.scope(g))]
     want = sorted([("self._create_placeholder_expr(%s, 'sum_control_plus')" % g.params[1], [("include_last", True)]),
                    ("self._create_placeholder_expr(%s, 'sum_control')" % g.params[1], [("include_last", False)])])
     ctx.check(sorted(rets) == want, "Stage.sum species by include_last", detail="species selection", expected=want, found=sorted(rets), fi=g)
